@@ -390,32 +390,68 @@ func checkC09(c *Ctx) *core.Result {
 	return r
 }
 
-// passesRule: every call of callee in fn is outside any loop of fn.
+// passesRule: every call chain from fn to callee (directly, or through helper
+// functions up to three levels deep) goes through call sites outside loops —
+// or inside a loop over a constant list of at most 8 entries — and the number
+// of chains is at most 8: a constant number of passes.
 func passesRule(p *core.Program, r *core.Result, fn, callee *ssa.Function, what string) {
 	if fn == nil || callee == nil {
 		return
 	}
-	loops := ssax.Loops(fn)
-	n := 0
-	for _, b := range fn.Blocks {
-		for _, ins := range b.Instrs {
-			call, ok := ins.(ssa.CallInstruction)
-			if !ok || call.Common().StaticCallee() != callee {
-				continue
-			}
-			n++
-			expr := fmt.Sprintf("%s: call #%d of %s is not inside a loop", what, n, callee.Name())
-			if l := ssax.InnermostLoop(loops, b); l != nil {
-				r.Fail("L1", core.QualName(fn), expr, p.Pos(ins.Pos()), "the pass is started from inside a loop: the number of passes over the input is not a constant")
-			} else {
-				r.OK("L1", core.QualName(fn), expr, p.Pos(ins.Pos()), "straight-line call site")
+	total := 0
+	var walk func(g *ssa.Function, depth int, mult int, via string)
+	walk = func(g *ssa.Function, depth int, mult int, via string) {
+		loops := ssax.Loops(g)
+		for _, b := range g.Blocks {
+			for _, ins := range b.Instrs {
+				call, ok := ins.(ssa.CallInstruction)
+				if !ok {
+					continue
+				}
+				h := call.Common().StaticCallee()
+				if h == nil || !p.InModule(h) {
+					continue
+				}
+				direct := h == callee
+				if !direct && (depth >= 3 || h == g || !reachesFrom(p, h, callee)) {
+					continue
+				}
+				m := mult
+				expr := fmt.Sprintf("%s: call of %s%s is not inside a loop", what, h.Name(), via)
+				if l := ssax.InnermostLoop(loops, b); l != nil {
+					// a loop over a short constant list of pass parameters is a constant number of passes
+					bounded := 0
+					for _, arg := range call.Common().Args {
+						if base, _, ok := listElem(arg); ok {
+							if vals, why := constIntList(base); why == "" && len(vals) <= 8 && len(l.Exits) <= 2 {
+								bounded = len(vals)
+							}
+						}
+					}
+					if bounded == 0 {
+						r.Fail("L1", core.QualName(g), expr, p.Pos(ins.Pos()), "the pass is started from inside a loop: the number of passes over the input is not a constant")
+						continue
+					}
+					m *= bounded
+					r.OK("L1", core.QualName(g), expr+fmt.Sprintf(" (loop over a constant list of %d entries)", bounded), p.Pos(ins.Pos()), "constant trip count")
+				} else {
+					r.OK("L1", core.QualName(g), expr, p.Pos(ins.Pos()), "straight-line call site")
+				}
+				if direct {
+					total += m
+				} else {
+					walk(h, depth+1, m, via+" via "+h.Name())
+				}
 			}
 		}
 	}
-	if n == 0 {
-		r.Fail("L1", core.QualName(fn), what+": call sites located", p.Pos(fn.Pos()), callee.Name()+" is not called from "+fn.Name()+": the pass structure is undecided")
-	} else if n > 8 {
-		r.Fail("L1", core.QualName(fn), what+": at most 8 passes", p.Pos(fn.Pos()), fmt.Sprintf("%d call sites", n))
+	walk(fn, 0, 1, "")
+	if total == 0 {
+		r.Fail("L1", core.QualName(fn), what+": call sites located", p.Pos(fn.Pos()), callee.Name()+" is not reached from "+fn.Name()+" through at most three helpers: the pass structure is undecided")
+	} else if total > 8 {
+		r.Fail("L1", core.QualName(fn), what+": at most 8 passes", p.Pos(fn.Pos()), fmt.Sprintf("%d call chains", total))
+	} else {
+		r.OK("L1", core.QualName(fn), fmt.Sprintf("%s: %d call chain(s), all outside loops", what, total), p.Pos(fn.Pos()), "")
 	}
 }
 
